@@ -7,7 +7,9 @@ From Coq Require Import ZArith List Bool.
 Import ListNotations.
 Open Scope Z_scope.
 
-Inductive aop := Send (id : Z) | StashOn | StashOff | UnstashAll | UnstashOne.
+(* Req: the payload of ctx.Request (an AsyncRequest envelope). doReceive routes it to the USER mailbox,
+   like a Tell, so it is one more FIFO entry; the receiver answers it when it is processed. *)
+Inductive aop := Send (id : Z) | Req (id : Z) | StashOn | StashOff | UnstashAll | UnstashOne.
 
 Record ast := mkAst {
   amb : list aop;          (* the mailbox, FIFO *)
@@ -22,6 +24,9 @@ Definition astep (s : ast) : option ast :=
   | o :: mb =>
       Some match o with
            | Send i =>
+               if astashing s then mkAst mb (astash s ++ [i]) true (alog s ++ [(1, i)])
+               else mkAst mb (astash s) false (alog s ++ [(0, i)])
+           | Req i =>
                if astashing s then mkAst mb (astash s ++ [i]) true (alog s ++ [(1, i)])
                else mkAst mb (astash s) false (alog s ++ [(0, i)])
            | StashOn => mkAst mb (astash s) true (alog s)
@@ -45,3 +50,8 @@ Fixpoint arun (fuel : nat) (s : ast) : ast :=
 Definition actor_log (ops : list aop) : list (Z * Z) :=
   let n := S (S (length ops)) in
   alog (arun (n * n + n) (mkAst (ops ++ [StashOff; UnstashAll]) [] false [])).
+
+(* the receiver acknowledges every message it processes (Response for a Request, Tell otherwise): what
+   the sender sees, in order, when replies travel FIFO too *)
+Definition reply_log (ops : list aop) : list Z :=
+  map snd (filter (fun e => fst e =? 0) (actor_log ops)).
